@@ -28,6 +28,9 @@ fn schema() -> Schema {
         .field(Field::new("badNaturals", TypeRef::named_nn_list_nn("Natural"), |_| FieldFuture::new(async { Ok(Some(GqlValue::from(vec![1, -2]))) })))
         .field(Field::new("badNested", TypeRef::named_nn_list("Natural"), |_| FieldFuture::new(async { Ok(Some(GqlValue::List(vec![GqlValue::from(1), GqlValue::List(vec![GqlValue::from(2)])]))) })))
         .field(Field::new("badColor", TypeRef::named_nn_list_nn("Color"), |_| FieldFuture::new(async { Ok(Some(GqlValue::List(vec![GqlValue::from("GREEN"), GqlValue::from("PURPLE")]))) })))
+        .field(Field::new("nullNn", TypeRef::named_nn(TypeRef::INT), |_| FieldFuture::new(async { Ok(Some(GqlValue::Null)) })))
+        .field(Field::new("nullItemNn", TypeRef::named_nn_list_nn(TypeRef::INT), |_| FieldFuture::new(async { Ok(Some(GqlValue::List(vec![GqlValue::from(1), GqlValue::Null]))) })))
+        .field(Field::new("strAsInt", TypeRef::named_nn(TypeRef::INT), |_| FieldFuture::new(async { Ok(Some(GqlValue::from("seven"))) })))
         .field(Field::new("nums", TypeRef::named_nn_list(TypeRef::INT), |_| FieldFuture::new(async { Ok(Some(GqlValue::from(vec![1, 2]))) })));
     Schema::build("Query", None, None).register(dog).register(cat).register(animal).register(pet).register(canine).register(natural).register(color).register(q).finish().unwrap()
 }
@@ -64,7 +67,13 @@ pub fn inputs(_seed: u64, open: &[String]) -> impl Iterator<Item = Value> {
         json!({"query": "{ badNaturals }", "expect_error": true}),
         json!({"query": "{ badNested }", "expect_error": true}),
         json!({"query": "{ badColor }", "expect_error": true}),
+        // a position whose type is non-null never holds null
+        json!({"query": "{ nullNn }", "expect_error": true}),
+        json!({"query": "{ nullItemNn }", "expect_error": true}),
     ];
+    if !has("C02-builtin-scalars-unchecked") {
+        v.push(json!({"query": "{ strAsInt }", "expect_error": true}));
+    }
     if !has("C02-union-type-condition") {
         v.push(json!({"query": "{ pets { ... on Canine { __typename } ... on Cat { meow } } }", "data": "{\"pets\":[{\"__typename\":\"Dog\"},{\"meow\":9}]}"}));
         v.push(json!({"query": "{ pet { ... on Pet { ... on Dog { bark } } } }", "data": "{\"pet\":{\"bark\":3}}"}));
